@@ -1,12 +1,14 @@
 /-
 Definitions only (no Mathlib; the driver evaluates them): the scope records of a finished tree, the class of SIMPLE programs
-(no label, no named function expression; catch clauses are allowed), and the WALK FACTS: the decidable, purely book-keeping statement of
+(labels, catch clauses and named function expressions are allowed: every program), and the WALK FACTS: the decidable, purely book-keeping statement of
 what the prewalk did on a program —
-  * every function node has its own scope record, child of the record of the enclosing function (or of the global scope), whose
-    `local_declared_symbols` are exactly the function's parameters and hoisted declarations, and which the look-up tables of
-    `Final` (`chains`, and the tables `tauFin` reads) identify by id and node path;
-  * every Identifier occurrence is registered (`Obfuscator.identifiers`) in the record of its innermost function, a reference is
-    a key of that scope's `referenced_symbols`, a declaration is in its `local_declared_symbols`.
+  * every function node has its own scope record, child of the record of the enclosing scope, whose `local_declared_symbols`
+    contain the function's parameters and hoisted declarations (they also contain the names of the function expressions nested in
+    the scope), and which the look-up tables of `Final` (`chains`, and the tables `tauFin` reads) identify by id and node path;
+    every catch clause has its own catch record;
+  * every Identifier occurrence is registered (`Obfuscator.identifiers`) in the record of its innermost function or catch clause,
+    a reference is a key of that scope's `referenced_symbols` and is not resolved past a scope that declares it only as the name of a
+    function expression (`noExtra`, the complement of KF-07b), a declaration is in its `local_declared_symbols`.
 Nothing here speaks of replacements or capture: that is derived (Proofs/ObfLink.lean, ObfSimple*.lean).
 -/
 import CalmVerif.Proofs.ObfBindCond
@@ -39,12 +41,34 @@ def entriesOf (C : List Anc) : List TableEntry := C.map (fun a => (a.kind.isFunc
 structure MCtx where
   sid : Nat
   chain : List Anc
+  /-- the ES5 environment of the site (what `Spec.Scope.enter` builds on the way down) -/
+  env : List Layer
+  /-- the labels in scope (innermost first), each with the node of its definition and the chain of the scope its Identifier is
+  registered in -/
+  labels : List (String × SPath × List Anc)
 
-def setEq (a b : List String) : Bool := a.all b.contains && b.all a.contains
+def subsetOf (a b : List String) : Bool := a.all b.contains
 
-/-- a reference site: registered in the current scope, and a key of its `referenced_symbols` -/
+/-- on the way of the ES5 look-up of `n` through the environment `E` (aligned with the chain `C`: one scope record per `var` / global /
+catch environment record, none for the record of a function expression's own name), no function scope has a replacement for `n`
+without the environment record having `n` — the scope records also declare the names of function expressions nested in them -/
+def noExtra : List Layer → List Anc → String → Bool
+  | [], _, _ => true
+  | L :: E, C, n =>
+    if L.names.contains n then true
+    else match L.kind with
+      | .self => noExtra E C n
+      | .catch => noExtra E C.tail n
+      | _ =>
+        (match C with
+         | A :: _ => (A.remapped.lookup n).isNone
+         | [] => true)
+        && ((L.kind == .var && n == "arguments") || noExtra E C.tail n)
+
+/-- a reference site: registered in the current scope, a key of its `referenced_symbols`, and resolved by ES5 without passing a
+scope record that declares it only as the name of a function expression -/
 def refSite (fin : Final) (mc : MCtx) (q : Path) (n : String) : Bool :=
-  lookupPath fin.identifiers q == some mc.sid && (ckeys (effRefs mc.chain)).contains n
+  lookupPath fin.identifiers q == some mc.sid && (ckeys (effRefs mc.chain)).contains n && noExtra mc.env mc.chain n
 
 /-- the symbol is declared in the variable environment of the chain: the first function scope, no catch scope on the way
 binding the same symbol (`CatchScope.declare` forwards every other symbol to its parent) -/
@@ -101,7 +125,11 @@ def catchRec (fin : Final) (recs : List Rec) (mc : MCtx) (path : Path) (as : Lis
     | some R =>
       match R.chain with
       | [] => none
-      | K :: C => if catchFacts fin mc path c R.id K C then some { sid := R.id, chain := K :: C } else none
+      | K :: C =>
+        if catchFacts fin mc path c R.id K C then
+          some { sid := R.id, chain := K :: C, env := { kind := .catch, scope := path.reverse, names := [c] } :: mc.env,
+                 labels := mc.labels }
+        else none
 
 mutual
   /-- the sites `hoistVal` collects; inside a catch block they are registered in the catch scope -/
@@ -140,20 +168,60 @@ def hoistElemsOf (as : List (String × Val)) : List String :=
 def paramsOf (kind : String) (as : List (String × Val)) : List String :=
   paramNames (if kind == "SetPropAssign" then Spec.Scope.lookupAttr as "parameter" else Spec.Scope.lookupAttr as "parameters")
 
+/-- the own name of a function expression, `none` for every other node -/
+def selfNameOf (kind : String) (as : List (String × Val)) : Option String :=
+  if kind == "FuncExpr" then identAttrOf' as else none
+
+/-- the environment of the body of the function node at `p` -/
+def funcEnv (env : List Layer) (p : SPath) (kind : String) (as : List (String × Val)) : List Layer :=
+  { kind := .var, scope := p, names := paramsOf kind as ++ hoistElemsOf as }
+    :: ((selfNameOf kind as).toList.map (fun g => ({ kind := .self, scope := p, names := [g] } : Layer)) ++ env)
+
+/-- the own name `g` of the function expression at `p`: its Identifier (at `q`) is registered in the enclosing scope `mc` (where the name is
+declared, too), `g` is a key of that scope's `referenced_symbols`, and the tables `tauFin` reads for it are those of `mc` -/
+def selfFacts (fin : Final) (mc : MCtx) (p : SPath) (q : Path) (g : String) : Bool :=
+  decide ((tablesOfNode fin p).tail = entriesOf mc.chain) && (ckeys (effRefs mc.chain)).contains g
+    && decide (lookupPath fin.identifiers q = some mc.sid)
+
 /-- the facts about the record `R` (chain `A :: C`) of the function node at `p`, seen from the enclosing scope `mc` -/
 def funcFacts (fin : Final) (recs : List Rec) (mc : MCtx) (p : SPath) (kind : String) (as : List (String × Val)) (rid : Nat) (A : Anc)
     (C : List Anc) : Bool :=
+  let inner : MCtx := { sid := rid, chain := A :: C, env := funcEnv mc.env p kind as, labels := [] }
   decide (C = mc.chain) && A.kind == .func
-    && setEq (paramsOf kind as ++ hoistElemsOf as) A.decl
+    && subsetOf (paramsOf kind as ++ hoistElemsOf as) A.decl
     && decide (((tablesOfNode fin p).headD (true, [])).2 = A.remapped)
     && decide (lookupChain fin.chains rid = some (entriesOf (A :: C)))
-    && hoistFactsAttr fin recs { sid := rid, chain := A :: C } p.reverse "elements" (Spec.Scope.lookupAttr as "elements")
+    && hoistFactsAttr fin recs inner p.reverse "elements" (Spec.Scope.lookupAttr as "elements")
     && (match (if kind == "SetPropAssign" then Spec.Scope.lookupAttr as "parameter"
           else Spec.Scope.lookupAttr as "parameters") with
-        | some v => declSites fin { sid := rid, chain := A :: C } p
-            (if kind == "SetPropAssign" then "parameter" else "parameters") v
+        | some v => declSites fin inner p (if kind == "SetPropAssign" then "parameter" else "parameters") v
         | none => true)
-    && (kind != "FuncExpr" || (identAttrOf' as).isNone)
+    && (match selfNameOf kind as with
+        | some g => selfFacts fin mc p (("identifier", 0) :: p.reverse) g
+        | none => true)
+
+/-- `Cd` is `C` without some catch scopes at its head, none of which binds `n`: `resolve(n)` answers the same in both -/
+def catchSuffix : List Anc → List Anc → String → Bool
+  | K :: C, Cd, n =>
+    if K :: C = Cd then true
+    else match K.kind with
+      | .catch c _ => c != n && catchSuffix C Cd n
+      | .func => false
+  | [], Cd, _ => Cd.isEmpty
+
+/-- a labelled jump to `n` from a site registered in the scope with chain `C`: between the jump and the definition of every label up to
+the one it targets no catch scope binds `n` (the complement of KF-07c); a jump to an undefined label (the parser accepts it) keeps
+its spelling -/
+def labelRefOK (C : List Anc) : List (String × SPath × List Anc) → String → Bool
+  | [], n => resolveChain C n == n
+  | (y, _, Cy) :: rest, n => catchSuffix C Cy n && (y == n || labelRefOK C rest n)
+
+/-- the definition of the label at `p`: its Identifier is registered in the current scope `mc` (a label is renamed as if it were a
+reference to a variable of that name), and that scope is the record `recs` has under its id -/
+def labelFacts (fin : Final) (recs : List Rec) (mc : MCtx) (p : SPath) (n : String) : Bool :=
+  decide (lookupPath fin.identifiers (("identifier", 0) :: p.reverse) = some mc.sid)
+    && (ckeys (effRefs mc.chain)).contains n
+    && decide ((recs.find? (fun r => r.id == mc.sid)).map (·.chain) = some mc.chain)
 
 /-- the record of the function node at `p`; `none` when a fact fails -/
 def enterFacts (fin : Final) (recs : List Rec) (mc : MCtx) (p : SPath) (kind : String) (as : List (String × Val)) :
@@ -164,22 +232,33 @@ def enterFacts (fin : Final) (recs : List Rec) (mc : MCtx) (p : SPath) (kind : S
     | some R =>
       match R.chain with
       | [] => none
-      | A :: C => if funcFacts fin recs mc p kind as R.id A C then some { sid := R.id, chain := A :: C } else none
+      | A :: C =>
+        if funcFacts fin recs mc p kind as R.id A C then
+          some { sid := R.id, chain := A :: C, env := funcEnv mc.env p kind as, labels := [] }
+        else none
   else if kind == "Catch" then catchRec fin recs mc p.reverse as
+  else if kind == "Label" then
+    match identAttrOf' as with
+    | some n => if labelFacts fin recs mc p n then some { mc with labels := (n, p, mc.chain) :: mc.labels } else none
+    | none => some mc
   else some mc
 
-/-- the facts of one attribute, given those of the three possible recursive calls -/
-def roleFacts (fin : Final) (outer inner : MCtx) (p : SPath) (a : String) (v : Val) (role : Role)
+/-- the facts of one attribute, given those of the three possible recursive calls (`macro_inline`: compiled code evaluates only the
+call the role needs) -/
+@[macro_inline] def roleFacts (fin : Final) (recs : List Rec) (outer inner : MCtx) (p : SPath) (a : String) (v : Val) (role : Role)
     (fFor fInner fOuter : Bool) : Bool :=
   match role with
   | .skip => true
   | .funcDeclName => declSites fin outer p a v
-  | .selfName => (identsOf p a v).isEmpty
+  | .selfName => (identsOf p a v).all (fun q => selfFacts fin outer p q.1 q.2)
   | .params => declSites fin inner p a v
   | .catchParam => (identsOf p a v).all (fun q => catchSite fin inner q.1 q.2)
-  | .varName _ => declSites fin outer p a v
-  | .labelDecl => false
-  | .labelRef => (identsOf p a v).isEmpty
+  | .varName assigned =>
+    declSites fin outer p a v && (!assigned || (identsOf p a v).all (fun q => noExtra outer.env outer.chain q.2))
+  | .labelDecl => (identsOf p a v).all (fun q => q.1 == ("identifier", 0) :: p.reverse && labelFacts fin recs outer p q.2)
+  | .labelRef =>
+    (identsOf p a v).all (fun q => lookupPath fin.identifiers q.1 == some outer.sid
+      && (ckeys (effRefs outer.chain)).contains q.2 && labelRefOK outer.chain outer.labels q.2)
   | .forInItem => fFor
   | .inner => fInner
   | .outer => fOuter
@@ -192,7 +271,6 @@ mutual
         | some n => refSite fin mc p.reverse n
         | none => true
       else
-        k != "Label" &&
         (match enterFacts fin recs mc p k as with
          | some inner => factsAttrs fin recs mc inner p k (isPresent (Spec.Scope.lookupAttr as "initializer")) forIn as
          | none => false)
@@ -205,11 +283,11 @@ mutual
       List (String × Val) → Bool
     | [] => true
     | (a, .list xs) :: rest =>
-      roleFacts fin outer inner p a (.list xs) (roleOf kind a hasInit forIn) (factsList fin recs outer false p a 0 xs)
+      roleFacts fin recs outer inner p a (.list xs) (roleOf kind a hasInit forIn) (factsList fin recs outer false p a 0 xs)
         (factsList fin recs inner false p a 0 xs) (factsList fin recs outer false p a 0 xs)
       && factsAttrs fin recs outer inner p kind hasInit forIn rest
     | (a, v) :: rest =>
-      roleFacts fin outer inner p a v (roleOf kind a hasInit forIn) (factsVal fin recs outer true (p ++ [(a, 0)]) v)
+      roleFacts fin recs outer inner p a v (roleOf kind a hasInit forIn) (factsVal fin recs outer true (p ++ [(a, 0)]) v)
         (factsVal fin recs inner false (p ++ [(a, 0)]) v) (factsVal fin recs outer false (p ++ [(a, 0)]) v)
       && factsAttrs fin recs outer inner p kind hasInit forIn rest
 end
@@ -221,8 +299,9 @@ def factsProgram (fin : Final) (recs : List Rec) (program : Val) : Bool :=
   | R :: _ =>
     match R.chain with
     | [A] =>
-      let mc : MCtx := { sid := R.id, chain := [A] }
-      A.kind == .func && setEq (hoistVal program) A.decl && decide (rootTable fin = A.remapped)
+      let mc : MCtx :=
+        { sid := R.id, chain := [A], env := [{ kind := .global, scope := [], names := hoistVal program }], labels := [] }
+      A.kind == .func && subsetOf (hoistVal program) A.decl && decide (rootTable fin = A.remapped)
         && decide (lookupChain fin.chains R.id = some (entriesOf [A]))
         && hoistFacts fin recs mc [] program && factsVal fin recs mc false [] program
     | _ => false
